@@ -50,11 +50,11 @@ fn hostile_frame(ch: &mut Chooser, reduced: bool) -> Box<dyn Fn(&Probe, &LwCfg, 
             })
         }
         1 => {
-            let fwb = ch.free(4); let pwb = ch.free(5); let groups = ch.free(3); let gb = ch.free(4); let bf = ch.free(4); let nonce = ch.free(2);
+            let fwb = ch.free(4); let pwb = ch.free(5); let groups = ch.free(3); let gb = ch.free(5); let bf = ch.free(8); let nonce = ch.free(2);
             Box::new(move |p: &Probe, _cfg: &LwCfg, _tr: &Trace, _side: usize| {
                 let fbase = [p.tx_frame_log_base.wrapping_sub(1), p.tx_frame_base, p.tx_frame_next, p.tx_frame_next.wrapping_add(1)][fwb];
                 let pbase = [p.tx_packet_base, p.tx_packet_next.wrapping_sub(1), p.tx_packet_next, p.tx_packet_next.wrapping_add(1), p.tx_packet_base.wrapping_add(1)][pwb] & 0xFFFFF;
-                let g = AckGroup { base_id: [p.tx_frame_log_base.wrapping_sub(1), p.tx_frame_log_base, p.tx_frame_next.wrapping_sub(1), p.tx_frame_next][gb], bitfield: [0u32, 1, 0x8000_0001, 0xFFFF_FFFF][bf], nonce: nonce == 1 };
+                let g = AckGroup { base_id: [p.tx_frame_log_base.wrapping_sub(1), p.tx_frame_log_base, p.tx_frame_next.wrapping_sub(1), p.tx_frame_next, p.tx_frame_log_base.wrapping_sub(31)][gb], bitfield: [0u32, 1, 0x8000_0001, 0xFFFF_FFFF, 0b10, 0b100, 0x8000_0000, 0xFFFF_FFFE][bf], nonce: nonce == 1 };
                 let n = [0usize, 1, 161][groups];
                 Frame::AckFrame(AckFrame { frame_window_base_id: fbase, packet_window_base_id: pbase, frame_acks: (0..n).map(|i| AckGroup { base_id: g.base_id.wrapping_add(i as u32 * 3), ..g.clone() }).collect() }).write().to_vec()
             })
